@@ -1,4 +1,4 @@
 SPECIFICATION TSpec
-INVARIANTS RevertExactT RootCanonicalT CodeHashT ReadBackT NoSuicidedT
+INVARIANTS RevertExactT RootCanonicalT CodeHashT ReadBackT NoSuicidedT KnownFindingsT
 POSTCONDITION TraceAccepted
 CHECK_DEADLOCK FALSE
